@@ -204,3 +204,28 @@ Print Assumptions C01_text_rejected.
 Print Assumptions C01_text_generic.
 Print Assumptions C01_text_nonvacuous.
 Print Assumptions C01_text_rejected_nonvacuous.
+
+(** ONE statement from source text to the ISA: under [table_ok] of the live opcode table (checked per
+    run), the block the instruction line assembles to is what the independent 256-opcode matrix
+    (Spec/Isa65816.v) computes from the mnemonic, the operand shape denoted by the syntax, the
+    resolved width and the value — the live table row appears in the hypotheses only. *)
+From A816 Require Import Oracle.C01o Proofs.TextIsa.
+Theorem C01_text_is_isa : forall (t : live) (fs : srcfiles) (c : config) (fname : str) (sp0 : spacing)
+    (eorg : sexpr) (org : Z) (mn : str) (sz : option Z) (os : ospacing) (sh : shape) (e : sexpr)
+    (i1 i2 v : Z) (defs : list (option Z)) (b : Z),
+  table_ok (lv_optable t) = true ->
+  bus_agree_b (lv_low t) lorom = true -> low_rom_config t c ->
+  prec_compatible (lv_prec t) = true ->
+  (0 <= bank_of org <= 111 \/ 128 <= bank_of org <= 207) -> 32768 <= org mod 65536 ->
+  dlex eorg -> wf eorg -> eval noenv eorg = Ok org ->
+  sh <> ParserShapeTokens.ShImplied -> insn_ok (lv_lex t) mn sz os sh e i1 i2 -> eval noenv e = Ok v ->
+  get_emitter (lv_optable t) (lower_ascii mn) (mode_of sh) (sh_index sh i1) = Ok (EmPlain defs) ->
+  let w := resolved_width (sfx_vsize sz) v in
+  opcode_byte defs w = Some b -> byte_ok b = true -> fits w v = true ->
+  lorom_offset org + 1 + Z.of_nat (vsize_n w) < (if bank_of org <? 128 then 112 else 80) * 32768 ->
+  exists o fin bs osh,
+    assemble_source t fs c fname (insn_src sp0 eorg mn sz os sh e i1 i2) = AOk o fin /\
+    o_blocks o = [(bs, lorom_offset org)] /\ o_labels o = [] /\
+    amode_shape (mode_of sh) (sh_index sh i1) = Some osh /\
+    isa_expected (str_upper (lower_ascii mn)) osh w v = Some bs.
+Proof. exact text_plain_is_isa. Qed.
